@@ -52,7 +52,9 @@ impl Collect for Rec {
             let mut visits = vec![];
             a.record(&mut V(&mut visits));
             let m = a.metadata();
-            self.log.lock().unwrap().push(json!({"call": "new_span", "visits": visits, "name": m.name(), "target": m.target(), "level": vh_common::rec::rank(m.level()),
+            // how the parent was given: explicit root, an explicit parent (the harness's own span has id 1), or left to the context
+            let pk = if a.is_root() { "root" } else if a.parent().map(|p| p.into_u64()) == Some(1) { "given" } else if a.parent().is_some() { "other" } else { "ctx" };
+            self.log.lock().unwrap().push(json!({"call": "new_span", "pk": pk, "visits": visits, "name": m.name(), "target": m.target(), "level": vh_common::rec::rank(m.level()),
                 "declared": m.fields().iter().map(|f| f.name().to_string()).collect::<Vec<_>>()}));
             Id::from_u64(2)
         } else {
@@ -71,7 +73,8 @@ impl Collect for Rec {
         let mut visits = vec![];
         e.record(&mut V(&mut visits));
         let m = e.metadata();
-        self.log.lock().unwrap().push(json!({"call": "event", "visits": visits, "name": m.name(), "target": m.target(), "level": vh_common::rec::rank(m.level()),
+        let pk = if e.is_root() { "root" } else if e.parent().map(|p| p.into_u64()) == Some(1) { "given" } else if e.parent().is_some() { "other" } else { "ctx" };
+        self.log.lock().unwrap().push(json!({"call": "event", "pk": pk, "visits": visits, "name": m.name(), "target": m.target(), "level": vh_common::rec::rank(m.level()),
             "declared": m.fields().iter().map(|f| f.name().to_string()).collect::<Vec<_>>()}));
     }
     fn enter(&self, _: &Id) {}
